@@ -54,6 +54,8 @@ structure FieldInfo where
   /-- field-level `fall_back_on_default` (the option is or-ed in by `compile`) -/
   fbod : Bool := false
   dflt : Option Dflt := none
+  /-- `dependent_required`: external names of the fields that require this one (`ObjectField.required_by`) -/
+  requiredBy : List String := []
   deriving DecidableEq, Repr, Inhabited
 
 inductive ObjKind where
